@@ -42,6 +42,10 @@ pub struct ListDesc {
     pub threads: Vec<ThreadPlan>,
     #[serde(default)]
     pub faults: Vec<Fault>,
+    /// concurrent runs only: the threads share the *same handle objects* (as `&List` would:
+    /// the reference count stays 1) instead of holding clones
+    #[serde(default)]
+    pub by_ref: bool,
     /// recorded schedule (tid chosen at every decision); present = replay literally
     #[serde(default)]
     pub schedule: Option<Vec<u8>>,
@@ -173,6 +177,7 @@ fn elem_for(r: &mut Rng, with_nested: bool) -> ElemKind {
 // ------------------------------------------------------------------ C16 generation
 
 pub fn generate_c16(run_seed: u64, thorough: bool) -> ListDesc {
+    let by_ref = rng::derive(run_seed, &[rng::label("by-ref")]) % 5 == 0;
     let mut r = Rng::new(rng::derive(run_seed, &[rng::label("workload")]));
     let elem = elem_for(&mut r, false);
     let mut g = Gen { r: &mut r, elem, dups: false, next_val: 0, pool: vec![] };
@@ -217,7 +222,7 @@ pub fn generate_c16(run_seed: u64, thorough: bool) -> ListDesc {
             let kind = g.r.weighted(&[30, 26, 4, 5, 5, 3, 6, 7, 5, 2, 2, 3, 2, 1, 1]);
             let mut origin = if g.r.chance(45, 100) { Origin::Script } else { Origin::Rust };
             let op = match kind {
-                0 if g.r.chance(1, 8) => {
+                0 if !by_ref && g.r.chance(1, 8) => {
                     origin = Origin::Script;
                     cur[h] = None;
                     Op::GetMove { h, i: idx(&mut g) }
@@ -298,6 +303,7 @@ pub fn generate_c16(run_seed: u64, thorough: bool) -> ListDesc {
         inner_init: vec![],
         threads,
         faults: vec![],
+        by_ref,
         schedule: None,
     }
 }
@@ -483,6 +489,7 @@ pub fn generate_c15(run_seed: u64, thorough: bool, faults: bool) -> ListDesc {
         inner_init,
         threads: vec![ThreadPlan { slots: vec![None; nslots], ops }],
         faults: fl,
+        by_ref: false,
         schedule: None,
     }
 }
@@ -609,10 +616,18 @@ where
     let mut bodies: Vec<sched::Body> = Vec::new();
     for (t, plan) in d.threads.iter().enumerate() {
         let plan = plan.clone();
+        let by_ref = d.by_ref && !sequential;
         let slots: Vec<Option<List<E>>> = {
             let _rg = alloc::ModeGuard::new(alloc::MODE_RUN);
-            plan.slots.iter().map(|s| s.map(|i| shared[i].clone())).collect()
+            if by_ref {
+                // SAFETY: bitwise copies of the harness's handles, marked `borrowed` below and
+                // therefore never dropped: the threads use the very same handle objects
+                plan.slots.iter().map(|s| s.map(|i| unsafe { std::ptr::read(&shared[i]) })).collect()
+            } else {
+                plan.slots.iter().map(|s| s.map(|i| shared[i].clone())).collect()
+            }
         };
+        let borrowed: Vec<bool> = plan.slots.iter().map(|s| by_ref && s.is_some()).collect();
         let ids: Vec<Option<usize>> = plan.slots.clone();
         let mut ex = Exec::<E> {
             slots,
@@ -621,6 +636,7 @@ where
             join_str: if E::KIND == ElemKind::Str { Some(w.join_str.clone()) } else { None },
             inner: inner.clone(),
             catch: !d.faults.is_empty(),
+            borrowed,
         };
         let hist = history.clone();
         let faults = d.faults.clone();
@@ -687,7 +703,7 @@ where
     // In concurrent runs the harness keeps no handle of its own: a list lives exactly as long as
     // the threads' handles (the last one may go away while another thread is inside a script
     // call that owns its own clone).
-    if !sequential {
+    if !sequential && !d.by_ref {
         let _rg = alloc::ModeGuard::new(alloc::MODE_RUN);
         shared.clear();
     }
@@ -744,6 +760,7 @@ where
     c.insert("preempt_after_release".into(), out.preempt_after_rel);
     c.insert("lock_contended".into(), out.contended);
     c.insert(format!("elem_{}", d.elem.suffix()), 1);
+    c.insert("runs_sharing_handles_by_reference".into(), d.by_ref as u64);
     c.insert(format!("strategy_{}", d.strategy.split('/').next().unwrap_or("")), 1);
     c.insert("ops".into(), d.threads.iter().map(|t| t.ops.len() as u64).sum());
     for t in &d.threads {
